@@ -34,7 +34,8 @@ def floors(ctx):
     return {"evaluations": 1500 if q else 15000, "links_checked": 5000 if q else 50000, "self_entries": 100,
             "repeated_entries": 100, "empty_rows": 100, "generator_rows": 50, "cases_with_prior_links": 200,
             "readback_cases": 300, "error_inputs": 100, "side_array_duplicates": 30, "exotic_truthy_cells": 200,
-            "big_inputs": 4, "ragged_matrices_with_n_squared_cells": 50}
+            "big_inputs": 4, "ragged_matrices_with_n_squared_cells": 50,
+            "rows_that_are_iterable_vertices": 100}
 
 
 def cell_value(c):
@@ -79,6 +80,12 @@ def run_case(ctx, case):
             row = objs if rk == "list" else tuple(objs) if rk == "tuple" else (o for o in objs)
             if rk == "gen":
                 ctx.count("generator_rows")
+            elif rk == "cluster":
+                # the row container is itself a vertex (a cluster that yields its members): still "an iterable of vertices"
+                row = zoo.ClusterVertex(members=objs, attributes={"idx": 1000 + k})
+                ctx.count("rows_that_are_iterable_vertices")
+            elif rk == "dictkeys":
+                row = dict.fromkeys(objs).keys() if len({id(o) for o in objs}) == len(objs) else objs
             adj[pool.get(key)] = row
             order.append(key)
             if not vals:
@@ -247,7 +254,7 @@ def gen_case(rng, big=False):
                 vals.append(vals[0])
             adj.append([k, vals])
         return {"history": history, "builder": "dict", "cls": cls, "adj": adj,
-                "rowkind": [rng.choice(["list", "tuple", "gen"]) for _ in range(3)]}
+                "rowkind": [rng.choice(["list", "tuple", "gen", "cluster", "dictkeys"]) for _ in range(3)]}
     n = rng.randint(0, min(8 if not big else 30, max(1, len(vnames) + 1)))
     side = [rng.choice(vnames) for _ in range(n)] if rng.random() < 0.15 and vnames else rng.sample(vnames, min(n, len(vnames)))
     n = len(side)
